@@ -6,6 +6,7 @@
 // their planned const calls on one `const TasmanianSparseGrid&` (G).  Each thread records its
 // own access program (hook events with a thread-local sequence number) and, per call, whether
 // the concurrent result equals the reference (bitwise or 1e-14 relative): the `eq` bit.
+// The `det` bit tells whether two identical twins agree on the reference at all.
 // There is no verdict in here: spec/ConstCacheTrace.tla (TLC) judges the ndjson output.
 //
 // plan (text):   EXEC id family variant state nthreads yield_permille seed
@@ -30,7 +31,7 @@
 using namespace TasGrid;
 
 struct Ev{ const char *n; long long c, o, p, s; };
-struct Call{ std::string op; int arg; long long s0, s1; std::vector<Ev> ev; std::vector<double> out; bool threw; bool eq; std::string diff; };
+struct Call{ std::string op; int arg; long long s0, s1; std::vector<Ev> ev; std::vector<double> out; bool threw; bool eq; bool det; std::string diff; };
 
 static thread_local std::vector<Ev> *tl_buf = nullptr;
 static thread_local long long tl_seq = 0;
@@ -213,8 +214,21 @@ static int run_exec(Exec const &E, std::string const &tmp, FILE *out){
         for(auto const &o : E.ops[t]){
             Call c; c.op = o.first; c.arg = o.second; c.eq = false; c.threw = false;
             bool threw; std::vector<double> ref = call(twin, c.op, c.arg, threw);
-            c.out = ref; c.threw = threw;
+            c.out = ref; c.threw = threw; c.det = true;
             calls[t].push_back(c);
+        }
+    }
+    // the reference must be a function of the grid state: a second twin has to give the same answers
+    // (it does not when a call reads storage the preparation left unspecified; such a call has no "result when run alone")
+    {
+        TasmanianSparseGrid twin2;
+        build(twin2, E.fam, E.var, E.state, file, false);
+        for(int t=0; t<E.nt; t++){
+            for(auto &c : calls[t]){
+                bool threw; std::string d;
+                std::vector<double> ref2 = call(twin2, c.op, c.arg, threw);
+                if (threw != c.threw || !same(ref2, c.out, d)) c.det = false;
+            }
         }
     }
     // 3. the concurrent phase on one const reference
@@ -260,8 +274,8 @@ static int run_exec(Exec const &E, std::string const &tmp, FILE *out){
             bool eq = (c.threw == (cthrew[t][k] != 0)) && same(results[t][k], c.out, diff);
             std::vector<Ev> ev;
             for(auto const &e : bufs[t]) if (e.s > marks[t][k].first && e.s < marks[t][k].second) ev.push_back(e);
-            char b[200]; snprintf(b, 200, "%s{\"op\":\"%s\",\"arg\":%d,\"k\":%zu,\"s0\":%lld,\"s1\":%lld,\"eq\":%s,\"thr\":%s,\"n\":%zu,\"diff\":\"%s\",\"ev\":",
-                                  k ? "," : "", c.op.c_str(), c.arg, k + 1, marks[t][k].first, marks[t][k].second, eq ? "true" : "false", c.threw ? "true" : "false", c.out.size(), diff.c_str());
+            char b[200]; snprintf(b, 200, "%s{\"op\":\"%s\",\"arg\":%d,\"k\":%zu,\"s0\":%lld,\"s1\":%lld,\"eq\":%s,\"det\":%s,\"thr\":%s,\"n\":%zu,\"diff\":\"%s\",\"ev\":",
+                                  k ? "," : "", c.op.c_str(), c.arg, k + 1, marks[t][k].first, marks[t][k].second, eq ? "true" : "false", c.det ? "true" : "false", c.threw ? "true" : "false", c.out.size(), diff.c_str());
             s += b; s += evjson(ev) + "}";
         }
         s += "]";
